@@ -390,6 +390,23 @@ class Translator:
         raise Unsupported("pattern %s in a binder" % k)
 
     # ---- combinator expressions -> terms of P ----
+    def has_model(self, name):
+        """functions listed in tools/t12_expected.json have a term of the same name in the model; any other parser function
+        of the source is a helper the model does not know: it is used through its own translation (src_f) or, as a
+        combinator argument, through the P term of its one-expression body"""
+        exp = getattr(self, "expected", None)
+        return (not exp) or name in exp
+
+    def helper_pterm(self, name, cx, depth=0):
+        it = self.fns[name]
+        if depth > 4 or self.parser_kind(it) != "direct" or self.extras(it) or it["body"][0] != "block": raise Unsupported("helper parser %s has no model term" % name)
+        b = it["body"]
+        while b[0] == "block" and not b[1] and b[2] is not None: b = b[2]
+        inp = it["params"][0][0]
+        if b[0] == "call" and len(b[2]) == 1 and b[2][0] == ("path", [inp]) and not self.mentions(b[1], inp):
+            return self.parser(b[1], cx)
+        raise Unsupported("helper parser %s (no model term) is not a single combinator expression" % name)
+
     def is_crate_parser(self, name):
         it = self.fns.get(name)
         return it is not None and self.parser_kind(it) is not None
@@ -417,6 +434,7 @@ class Translator:
                 it = self.fns[p[0]]
                 if self.parser_kind(it) != "direct" or self.extras(it): raise Unsupported("parser %s needs arguments" % p[0])
                 cx.calls.add(p[0])
+                if not self.has_model(p[0]): return self.helper_pterm(p[0], cx)
                 return self.model_term(p[0], [], self.generic_args(e[1], cx))
             if len(p) == 2 and p[1] == "parse":
                 return self.type_parse(p[0], [], cx)
@@ -563,6 +581,10 @@ class Translator:
                 if key in NOM_PRIMS and len(a) == 1: return "(run %s %s)" % (NOM_PRIMS[key], self.val(a[0], cx))
                 if len(p) == 1 and self.is_crate_parser(p[0]) and self.parser_kind(self.fns[p[0]]) == "direct" and a:
                     cx.calls.add(p[0])
+                    if not self.has_model(p[0]):      # a helper without a model term: its own translation
+                        if p[0] in getattr(self, "failed_helpers", {}): raise Unsupported("calls the helper %s, which is outside the subset: %s" % (p[0], self.failed_helpers[p[0]]))
+                        args_ = self.generic_args(f[1], cx) + [self.val(x, cx) for x in a[1:]] + [self.val(a[0], cx)]
+                        return self.guarded(cx, g0, "(src_%s %s)" % (p[0], " ".join(args_)))
                     t = self.model_term(p[0], [self.val(x, cx) for x in a[1:]], self.generic_args(f[1], cx))
                     return self.guarded(cx, g0, "(run %s %s)" % (t, self.val(a[0], cx)))
                 if len(p) == 2 and p[1] == "parse" and a:
@@ -826,14 +848,25 @@ def main():
         elif args[i] == "--report": report = args[i + 1]; i += 2
         else: i += 1
     T = Translator(repo)
+    _ep = os.path.join(VERIF, "tools", "t12_expected.json")
+    T.expected = json.load(open(_ep)) if os.path.exists(_ep) else {}
     done, failed = [], {}
-    for n in T.parser_functions():
+    T.failed_helpers = {}
+    allp = T.parser_functions()
+    # helpers without a model term first (several passes: a helper may call a helper), then the functions with one
+    order = [n for n in allp if T.expected and n not in T.expected] * 3 + [n for n in allp if not (T.expected and n not in T.expected)]
+    seen_done = set()
+    for n in order:
+        if n in seen_done: continue
         try:
-            done.append(T.translate_fn(n))
+            r = T.translate_fn(n)
+            done.append(r); seen_done.add(n); failed.pop(n, None); T.failed_helpers.pop(n, None)
         except Unsupported as e:
             failed[n] = str(e)
+            if T.expected and n not in T.expected: T.failed_helpers[n] = str(e)
         except (IndexError, KeyError, TypeError) as e:
             failed[n] = "internal: %r" % (e,)
+            if T.expected and n not in T.expected: T.failed_helpers[n] = failed[n]
     for n, dv in sorted(T.derived.items()):
         if dv["tuple"] and dv["kind"] == "struct": continue          # integer newtypes: their width is read directly (type_parse)
         try:
@@ -845,6 +878,16 @@ def main():
             failed[n + "_parse"] = str(e)
     exp_path = os.path.join(VERIF, "tools", "t12_expected.json")
     expected = json.load(open(exp_path)) if os.path.exists(exp_path) else {}
+    # helpers without a model term first, callees before callers
+    helpers = [d for d in done if expected and d["name"] not in expected]
+    rest = [d for d in done if not (expected and d["name"] not in expected)]
+    ordered, names_done = [], set()
+    for _ in range(len(helpers) + 1):
+        for d in helpers:
+            if d["name"] in names_done: continue
+            if all((c not in [h["name"] for h in helpers]) or c in names_done or c == d["name"] for c in d["calls"]):
+                ordered.append(d); names_done.add(d["name"])
+    done = ordered + [d for d in helpers if d["name"] not in names_done] + rest
     lines = ["(* GENERATED by tools/t12.py (T12) from the parser functions of /repo/src/*.rs -- do not edit *)",
              "From TlsModel Require Import Nom Values Handshake Record Extensions Kx Dtls ModelExtra SrcGlue.", "From TlsModel Require Import Consts.", "Open Scope N_scope.", ""]
     tie = ["(* GENERATED by tools/t12.py (T12): for every translated function, the source text means what the model's term means *)",
@@ -863,13 +906,14 @@ def main():
                 failed[d["name"]] = "constant %s: %s" % (c, e)
         lines.append("(* %s: %s *)" % (T.fns[d["name"]]["file"], d["name"]))
         lines.append("Definition src_%s %s (%s : slice) :=\n  %s.\n" % (d["name"], " ".join(d["params"]), d["input"], d["term"]))
-        if expected.get(d["name"], "tied") != "tied": continue
+        if expected.get(d["name"], "tied") != "tied" or (expected and d["name"] not in expected): continue
         binders = " ".join([q.replace("{", "(").replace("}", ")") for q in d["params"]] + ["i"])
         args_ = " ".join(d["generics"] + d["extras"])
         tac = "tie_%s" % d["name"] if re.search(r"Ltac tie_%s\b" % d["name"], tactics_src) else "tie"
         model = d.get("model") or MODEL_NAME.get(d["name"], d["name"])
-        tie.append("Lemma tie_%s : forall %s, src_%s %s i = run %s i.\nProof. intros; unfold src_%s, %s; timeout 60 %s. Qed.\n" % (
-            d["name"], binders, d["name"], args_, ("(%s %s)" % (model, args_)) if args_ else model, d["name"], model, tac))
+        tie.append("Lemma tie_%s : forall %s, src_%s %s i = run %s i.\nProof. intros; unfold src_%s, %s; %stimeout 60 %s. Qed.\n" % (
+            d["name"], binders, d["name"], args_, ("(%s %s)" % (model, args_)) if args_ else model, d["name"], model,
+            "".join("try unfold src_%s; " % h["name"] for h in reversed(ordered)), tac))
     os.makedirs(out, exist_ok=True)
     # diagnostic variant: every statement tried on its own, failures printed instead of stopping the file
     diag = []
@@ -945,8 +989,7 @@ def main():
     for n, st in expected.items():
         if st == "tied" and n in failed: dev.append("UNTRANSLATABLE T12: %s: %s" % (n, failed[n]))
         if n not in failed and n not in rep["translated"]: dev.append("UNTRANSLATABLE T12: %s: function no longer present in the source" % n)
-    for n in list(rep["translated"]) + list(failed):
-        if expected and n not in expected: dev.append("UNTRANSLATABLE T12: %s: function of the source without a model term to tie it to" % n)
+    rep["helpers_without_model"] = sorted(n for n in list(rep["translated"]) + list(failed) if expected and n not in expected)
     rep["deviations"] = dev
     rpath = report or os.path.join(out, "t12_report.json")
     with open(rpath + ".tmp%d" % os.getpid(), "w") as f: json.dump(rep, f, indent=1)
